@@ -98,7 +98,8 @@ const (
 // ---------------------------------------------------------------- case description (JSON, replayable)
 
 type step struct {
-	Op      string `json:"op"` // issue | respond | wrong | unknown | cancel
+	Op      string `json:"op"`              // issue | respond | wrong | unknown | cancel | burst
+	Churn   []int  `json:"churn,omitempty"` // burst: further callers started while the answers are being written, cancelled afterwards
 	Callers []int  `json:"callers,omitempty"`
 	T       int    `json:"t"`
 	M       int    `json:"m,omitempty"`      // marker carried by the response
@@ -596,6 +597,90 @@ func runCase(c *caseIn) (res result) {
 				}
 			}
 			cl.answered = true
+		case "burst":
+			// every pending caller of st.Callers is answered back-to-back, in the given order, without
+			// waiting for anybody, while the st.Churn callers are registering their requests (each
+			// sendRequest takes ClientConn.mu, which the response dispatcher needs for every answer)
+			for _, t := range st.Churn {
+				e.startCaller(a, t)
+			}
+			e.mu.Lock()
+			var serr error
+			for i, t := range st.Callers {
+				cl := e.callers[t]
+				e.log = append(e.log, ev{k: 'R', id: cl.id, ty: cl.kind, m: st.M + i}, ev{k: 'W', id: cl.id})
+				if err := e.send(response(cl.kind, cl.id, st.M+i)); err != nil && serr == nil {
+					serr = err
+				}
+			}
+			e.mu.Unlock()
+			if serr != nil {
+				res.direct = "the broker could not send (the client closed the link?): " + serr.Error()
+				closeBg()
+				return
+			}
+			deadline := time.Now().Add(wd())
+			nb := 0
+			for _, t := range st.Callers {
+				cl := e.callers[t]
+				left := time.Until(deadline)
+				if left < time.Millisecond {
+					left = time.Millisecond
+				}
+				if waitDone(cl, left) {
+					cl.returned = true
+					inflight--
+				} else {
+					blocked = true
+					if nb < 3 {
+						directs = append(directs, fmt.Sprintf("Blocked: caller %d (request id %d) did not return within the watchdog although its response was sent (burst of %d answers)", t, cl.id, len(st.Callers)))
+					}
+					nb++
+				}
+				cl.answered = true
+			}
+			if nb > 3 {
+				directs = append(directs, fmt.Sprintf("... and %d more callers of the burst", nb-3))
+			}
+			// the churn callers: wait until their requests are at the broker, then cancel them
+			ok := waitFor(func() bool {
+				e.mu.Lock()
+				defer e.mu.Unlock()
+				for _, t := range st.Churn {
+					if !e.callers[t].arrived {
+						return false
+					}
+				}
+				return true
+			})
+			if !ok {
+				blocked = true
+				directs = append(directs, fmt.Sprintf("Blocked: step %d: a request issued during the burst never reached the broker within the watchdog", si))
+				break
+			}
+			e.mu.Lock()
+			for _, t := range st.Churn {
+				e.log = append(e.log, ev{k: 'C', id: e.callers[t].id})
+			}
+			e.mu.Unlock()
+			for _, t := range st.Churn {
+				e.callers[t].cancel()
+			}
+			deadline = time.Now().Add(wd())
+			for _, t := range st.Churn {
+				left := time.Until(deadline)
+				if left < time.Millisecond {
+					left = time.Millisecond
+				}
+				if waitDone(e.callers[t], left) {
+					e.callers[t].returned = true
+				} else {
+					blocked = true
+					directs = append(directs, fmt.Sprintf("Blocked: caller %d did not return within the watchdog after its context was cancelled", t))
+					break
+				}
+			}
+			res.special++
 		case "unknown":
 			e.mu.Lock()
 			var id uint32
@@ -917,6 +1002,42 @@ func genScripted(add func(*caseIn, string)) {
 	}
 }
 
+// bursts: 24-64 requests of mixed kinds outstanding on one wire.ClientConn, all answered back-to-back
+// in one go (reverse or random order) while 32-96 further requests are being issued (cancelled
+// afterwards); several rounds per connection.  Every caller must get exactly its own answer: the
+// hand-off queue between the transport reader and the response dispatcher holds only 8 messages.
+func genBurst(r *rng.R) *caseIn {
+	c := &caseIn{Mode: "wire"}
+	rounds := 3 + r.Intn(4)
+	m := 0
+	for k := 0; k < rounds; k++ {
+		n := 24 + r.Intn(41)
+		nch := 32 + r.Intn(65)
+		base := len(c.Kinds)
+		for i := 0; i < n+nch; i++ {
+			c.Kinds = append(c.Kinds, wireKinds[r.Intn(len(wireKinds))])
+		}
+		main := seqInts(base, n)
+		c.Steps = append(c.Steps, step{Op: "issue", Callers: main})
+		order := make([]int, n)
+		if r.Bool() {
+			for i := range order {
+				order[i] = main[n-1-i]
+			}
+		} else {
+			for i, j := range r.Perm(n) {
+				order[i] = main[j]
+			}
+		}
+		c.Steps = append(c.Steps, step{Op: "burst", Callers: order, Churn: seqInts(base+n, nch), M: m + 1})
+		m += n
+	}
+	t := len(c.Kinds)
+	c.Kinds = append(c.Kinds, kMeta)
+	c.Steps = append(c.Steps, step{Op: "issue", Callers: []int{t}}, step{Op: "respond", T: t, M: m + 1})
+	return c
+}
+
 func genRandom(r *rng.R, mode string, ping bool, wrong bool) *caseIn {
 	c := &caseIn{Mode: mode, Ping: ping, Slow: r.Chance(1, 4)}
 	n := 5 + r.Intn(12)
@@ -1075,9 +1196,9 @@ func main() {
 		}
 		jobs = append(jobs, job{&rf.Input, "replay", 0})
 	} else {
-		nrand, nping, nconn, nwrong := 300, 80, 80, 48
+		nrand, nping, nconn, nwrong, nburst := 300, 80, 80, 48, 16
 		if *tier == "thorough" {
-			nrand, nping, nconn, nwrong = 2500, 600, 600, 400
+			nrand, nping, nconn, nwrong, nburst = 2500, 600, 600, 400, 120
 		}
 		genExhaustive(add)
 		genScripted(add)
@@ -1096,6 +1217,9 @@ func main() {
 				mode = "conn"
 			}
 			add(genRandom(r.Fork(), mode, false, true), "wrongtype")
+		}
+		for i := 0; i < nburst; i++ {
+			add(genBurst(r.Fork()), "burst")
 		}
 		add(&caseIn{Mode: "wrongpong"}, "wrongtype-pong")
 	}
@@ -1171,7 +1295,7 @@ func main() {
 			w.Count("sig:" + cs.Sig)
 		}
 	}
-	rule := "exhaustive: n<=4 concurrent requests of mixed kinds, every permutation of the answers x {plain, last-answered caller cancelled first with a late answer, every answer duplicated with another marker}; late-answer / late-rounds: a request is cancelled, further requests are issued, then the abandoned request is answered (before, between and after the other answers; repeated up to 5 rounds on one connection); noise-then-traffic: duplicates and unknown ids while another request is pending, followed by further rounds on the same connection; random: 5-16 concurrent requests (wire.ClientConn directly: upstream open/resume/close, downstream open/resume/close, metadata; through iscp.Conn: OpenDownstream xN + one OpenUpstream/SendBaseTime) issued in 1-3 groups, answers in random order with per-answer markers, duplicates of answered ids, odd / far / not-yet-issued ids, cancellations with and without a late answer, optionally keepalive pings every millisecond on the same id generator; wrongtype: answers of another message type (any of 10 tags, a ConnectResponse and a request message among them) bearing a pending id - the caller must get the malformed-message error and nobody else anything (F15, repaired); wrongtype-pong: an UpstreamCloseResponse bearing the id of the library's keepalive ping, in a child process - the process must survive and the keepalive loop close the connection. non-trivial = >=3 requests in flight at once and at least one cancellation or unknown id; distinct = distinct Coq case terms"
+	rule := "exhaustive: n<=4 concurrent requests of mixed kinds, every permutation of the answers x {plain, last-answered caller cancelled first with a late answer, every answer duplicated with another marker}; late-answer / late-rounds: a request is cancelled, further requests are issued, then the abandoned request is answered (before, between and after the other answers; repeated up to 5 rounds on one connection); noise-then-traffic: duplicates and unknown ids while another request is pending, followed by further rounds on the same connection; burst: 3-6 rounds per connection of 24-64 outstanding requests all answered back-to-back in one go (reverse or random order) while 32-96 further requests are being issued and then cancelled; random: 5-16 concurrent requests (wire.ClientConn directly: upstream open/resume/close, downstream open/resume/close, metadata; through iscp.Conn: OpenDownstream xN + one OpenUpstream/SendBaseTime) issued in 1-3 groups, answers in random order with per-answer markers, duplicates of answered ids, odd / far / not-yet-issued ids, cancellations with and without a late answer, optionally keepalive pings every millisecond on the same id generator; wrongtype: answers of another message type (any of 10 tags, a ConnectResponse and a request message among them) bearing a pending id - the caller must get the malformed-message error and nobody else anything (F15, repaired); wrongtype-pong: an UpstreamCloseResponse bearing the id of the library's keepalive ping, in a child process - the process must survive and the keepalive loop close the connection. non-trivial = >=3 requests in flight at once and at least one cancellation or unknown id; distinct = distinct Coq case terms"
 	if err := w.Flush(*seed, *tier, rule, false, nil); err != nil {
 		fmt.Fprintln(os.Stderr, err)
 		os.Exit(2)
